@@ -106,6 +106,7 @@ func (dec *decoder) jsonObjectBody(callback func(key string) error) error {
 	dec.depth++
 	defer func() { dec.depth-- }()
 
+	seenKeys := map[string]struct{}{}
 	for dec.jd.More() {
 		keyToken, err := dec.Token()
 		if err != nil {
@@ -116,6 +117,13 @@ func (dec *decoder) jsonObjectBody(callback func(key string) error) error {
 		if !ok {
 			return unexpectedTokenError(keyToken, "string (object key)")
 		}
+
+		// a key given twice would silently replace the earlier value in maps
+		// of scalars and enums.
+		if _, duplicate := seenKeys[keyTokenStr]; duplicate {
+			return newFieldError(keyTokenStr, "key is repeated")
+		}
+		seenKeys[keyTokenStr] = struct{}{}
 
 		if err := callback(keyTokenStr); err != nil {
 			return passUpError(keyTokenStr, err)
